@@ -251,7 +251,10 @@ TExpr == /\ IsEvent("expr") /\ pc \in {"min", "trie2"} /\ Ev.r = run.r
                 why == IF ~TrimAst(Ev.ast) THEN "no" ELSE Expl(lang, run.glang)
                 \* Level-2 conformance of state elimination (plain runs only: the transcription works on
                 \* characters, class tokens and fold orbits are outside it)
-                plain == pc = "min" /\ ~AnyClass(run.cfg) /\ ~run.cfg.icase /\ run.mmin.n > 1 /\ run.mtrie.n <= 24
+                \* (with escaping a non-ASCII character is written \u{..} and no longer counts as a single code
+                \* point in src/expression.rs is_single_codepoint; the transcription does not model that)
+                plain == pc = "min" /\ ~AnyClass(run.cfg) /\ ~run.cfg.icase /\ ~run.cfg.escape
+                         /\ run.mmin.n > 1 /\ run.mtrie.n <= 24
                 sameE == ~plain \/ SameAst(Ev.ast, XToLang(ToExpr(run.mmin, run.mmin.init)))
             IN /\ JudgeX(why, {"C16"}, "expr")
                /\ Judge(sameE, {"TOOL"}, "level2-drift-expr", "")
